@@ -444,8 +444,9 @@ Record wst := {
   w_slow : list nat;                (* handles made by XDialSlow *)
   w_closed : list nat;              (* closed handles as of the last observation *)
   w_park : option (nat * nat);      (* handle whose Close is parked, thread that is closing it *)
-  w_used : bool;                    (* a lock-kind event was already played during this park *)
-  w_def : option event;             (* the event that is blocked on the mutex *)
+  w_used : nat;                     (* lock-kind events already played during this park (at most 2) *)
+  w_def : list event;               (* the events blocked on the mutex, in the order they were issued
+                                       (sync.Mutex hands the lock to sleeping waiters first come first served) *)
   w_again : list nat }.             (* extra calls of a done function that is in flight (waiting in once.Do) *)
 
 Definition wmk s sl cl p u d ag :=
@@ -462,7 +463,7 @@ Definition run_now (w : wst) (e : event) : wst * xobs :=
   let slowc := filter (fun h => negb (mem h (w_closed w)) && mem h (w_slow w)) (o_closed o) in
   match e, slowc with
   | ERelease i, h :: _ =>
-      (wmk s' (w_slow w) (o_closed o) (Some (h, i)) false None (w_again w), XObs o [h] [])
+      (wmk s' (w_slow w) (o_closed o) (Some (h, i)) 0%nat [] (w_again w), XObs o [h] [])
   | ERelease i, [] =>
       (wmk s' (w_slow w) (o_closed o) (w_park w) (w_used w) (w_def w) (w_again w),
        XObs o [] (if o_ign o then [] else [i]))
@@ -472,6 +473,34 @@ Definition run_now (w : wst) (e : event) : wst * xobs :=
 
 Definition xignored (w : wst) : wst * xobs := (w, XObs (quiet_obs true w) [] []).
 
+Definition same_subject (e e' : event) : bool :=
+  match e, e' with
+  | EReq i _ _, EReq j _ _ => Nat.eqb i j
+  | EFailGo c, EFailGo d => Nat.eqb c d
+  | ERelease i, ERelease j => Nat.eqb i j
+  | _, _ => false
+  end.
+
+Definition merge_obs (a b : obs) : obs :=
+  Obs false (o_rets a ++ o_rets b) (o_joined a ++ o_joined b) (o_dials a ++ o_dials b)
+      (o_failing a ++ o_failing b) (o_closed b) (N.max (o_bad a) (o_bad b)).
+
+(** the blocked events get the mutex one after the other; if one of them parks
+    in another slow Close, the rest stay blocked behind that one *)
+Fixpoint drain (w : wst) (q : list event) (acc : xobs) : wst * xobs :=
+  match q with
+  | [] => (w, acc)
+  | e :: q' =>
+      match w_park w with
+      | Some _ =>
+          (wmk (w_s w) (w_slow w) (w_closed w) (w_park w) 2%nat (w_def w ++ q) (w_again w), acc)
+      | None =>
+          let '(w', xo) := run_now w e in
+          drain w' q' (XObs (merge_obs (x_o acc) (x_o xo)) (x_inclose acc ++ x_inclose xo)
+                            (x_reldone acc ++ x_reldone xo))
+      end
+  end.
+
 Definition xrun (w : wst) (xe : xevent) : wst * xobs :=
   match xe with
   | XE e =>
@@ -479,18 +508,21 @@ Definition xrun (w : wst) (xe : xevent) : wst * xobs :=
       | None => run_now w e
       | Some (h, closer) =>
           if lock_kind e then
-            if w_used w then xignored w
+            if Nat.leb 2 (w_used w) then xignored w
             else
-              let w1 := wmk (w_s w) (w_slow w) (w_closed w) (w_park w) true (w_def w) (w_again w) in
-              if match e with ERelease i => Nat.eqb i closer | _ => false end then xignored w1
+              let w1 := wmk (w_s w) (w_slow w) (w_closed w) (w_park w) (Datatypes.S (w_used w)) (w_def w) (w_again w) in
+              if match e with ERelease i => Nat.eqb i closer | _ => false end
+                 || existsb (same_subject e) (w_def w) then xignored w1
               else if needs_lock (w_s w) e
-                   then (wmk (w_s w) (w_slow w) (w_closed w) (w_park w) true (Some e) (w_again w),
+                   then (wmk (w_s w) (w_slow w) (w_closed w) (w_park w) (Datatypes.S (w_used w)) (w_def w ++ [e]) (w_again w),
                          XObs (quiet_obs false w) [] [])
                    else run_now w1 e
           else
-            match e, w_def w with
-            | ECancel i, Some (EReq j _ _) => if Nat.eqb i j then xignored w else run_now w e
-            | _, _ => run_now w e
+            match e with
+            | ECancel i =>
+                if existsb (fun d => match d with EReq j _ _ => Nat.eqb i j | _ => false end) (w_def w)
+                then xignored w else run_now w e
+            | _ => run_now w e
             end
       end
   | XDialSlow c =>
@@ -501,19 +533,17 @@ Definition xrun (w : wst) (xe : xevent) : wst * xobs :=
       match w_park w with
       | Some (h', closer) =>
           if Nat.eqb h h' then
-            let w1 := wmk (w_s w) (w_slow w) (w_closed w) None false None (w_again w) in
-            let '(w2, xo) :=
-              match w_def w with
-              | None => (w1, XObs (quiet_obs false w) [] [])
-              | Some e => run_now w1 e
-              end in
-            (* the closer's done() returns, then the blocked event runs; callers
+            let w1 := wmk (w_s w) (w_slow w) (w_closed w) None 0%nat [] (w_again w) in
+            let '(w2, xo) := drain w1 (w_def w) (XObs (quiet_obs false w) [] []) in
+            (* a park that begins while the blocked events run admits no further lock-kind event *)
+            let u2 := match w_park w2 with Some _ => 2%nat | None => w_used w2 end in
+            (* the closer's done() returns, then the blocked events run; callers
                waiting in once.Do of a done function that has now returned
                return too (sync.Once lets them go when the function is through) *)
             let rel := closer :: x_reldone xo in
             let back := filter (fun a => mem a rel) (w_again w) in
             let keep := filter (fun a => negb (mem a rel)) (w_again w) in
-            (wmk (w_s w2) (w_slow w2) (w_closed w2) (w_park w2) (w_used w2) (w_def w2) keep,
+            (wmk (w_s w2) (w_slow w2) (w_closed w2) (w_park w2) u2 (w_def w2) keep,
              XObs (x_o xo) (x_inclose xo) (rel ++ back))
           else xignored w
       | None => xignored w
@@ -525,7 +555,7 @@ Definition xrun (w : wst) (xe : xevent) : wst * xobs :=
   | XAgain i =>
       match w_park w with
       | Some (h, closer) =>
-          if Nat.eqb i closer || match w_def w with Some (ERelease j) => Nat.eqb i j | _ => false end
+          if Nat.eqb i closer || existsb (fun d => match d with ERelease j => Nat.eqb i j | _ => false end) (w_def w)
           then (wmk (w_s w) (w_slow w) (w_closed w) (w_park w) (w_used w) (w_def w) (i :: w_again w),
                 XObs (quiet_obs false w) [] [])
           else xignored w
@@ -562,8 +592,8 @@ Definition k_needs (ks : kstate) (e : event) : bool :=
   | _ => false
   end.
 
-Definition xm_init : @wst state := wmk init [] [] None false None [].
-Definition xk_init : @wst kstate := wmk kinit [] [] None false None [].
+Definition xm_init : @wst state := wmk init [] [] None 0%nat [] [].
+Definition xk_init : @wst kstate := wmk kinit [] [] None 0%nat [] [].
 
 Definition m_handle (s : state) (h : nat) : bool :=
   match objs s h with Some o => match c_cc o with Some _ => true | None => false end | None => false end.
